@@ -190,6 +190,33 @@ pub fn line_classes(src: &str, exempt: &[(usize, usize)]) -> Value {
         e.1 += 1;
         i = j + 1;
     }
+    // extra layout facts (specification growth beyond the listed properties): blank-line runs
+    let mut max_blank_run = 0u32;
+    let mut run = 0u32;
+    let mut starts_blank = false;
+    {
+        let mut pos = 0usize;
+        let mut first = true;
+        for line in src.split('\n') {
+            let end = pos + line.len();
+            let masked = mask[pos] != 0 || in_exempt(pos, end + 1);
+            let is_blank = line.trim_matches(|c| c == ' ' || c == '\t' || c == '\r').is_empty() && end < b.len();
+            if is_blank && !masked {
+                run += 1;
+                if first {
+                    starts_blank = true;
+                }
+            } else {
+                run = 0;
+            }
+            max_blank_run = max_blank_run.max(run);
+            first = false;
+            pos = end + 1;
+            if pos > b.len() {
+                break;
+            }
+        }
+    }
     let ends_with_newline = b.last() == Some(&b'\n');
     // count of trailing line endings at EOF
     let mut trail = 0;
@@ -211,6 +238,8 @@ pub fn line_classes(src: &str, exempt: &[(usize, usize)]) -> Value {
         "empty": b.is_empty(),
         "ends_with_newline": ends_with_newline,
         "trailing_newlines": trail,
+        "max_blank_run": max_blank_run,
+        "starts_blank": starts_blank,
     })
 }
 
